@@ -5,6 +5,7 @@ import json
 import os
 import random
 import select
+import shutil
 import subprocess
 import sys
 import time
@@ -16,6 +17,9 @@ OUT = os.environ.get("VERIF_OUT") or VERIF                                    # 
 
 
 SURVEY = bool(os.environ.get("VERIF_SURVEY"))
+
+
+PRLIMIT = shutil.which("prlimit")
 
 
 class DriverDied(Exception):
@@ -49,7 +53,9 @@ class Driver:
     def start(self):
         if not os.path.exists(self.path):
             raise Inconclusive("driver binary missing: %s (run setup)" % self.path)
-        self.proc = subprocess.Popen([self.path], stdin=subprocess.PIPE, stdout=subprocess.PIPE,
+        # 16 GiB address space per driver process: a runaway allocation ends that process, not the machine
+        cmd = ([PRLIMIT, "--as=%d" % (16 << 30)] if PRLIMIT else []) + [self.path]
+        self.proc = subprocess.Popen(cmd, stdin=subprocess.PIPE, stdout=subprocess.PIPE,
                                      stderr=subprocess.DEVNULL, bufsize=0)
         self.buf = b""
 
